@@ -680,3 +680,28 @@ impl PartialOrd for QO {
         }
     }
 }
+
+/// DF: a Debug leaf with an INHERENT method called `fmt` and a second fmt trait (Display): the derived code must call
+/// `::core::fmt::Debug::fmt` by path (method-call syntax would pick the decoy, or be ambiguous where Display is in scope)
+#[derive(Clone, Copy, PartialEq)]
+pub struct DF(pub u8);
+impl std::fmt::Debug for DF {
+    fn fmt(&self, f: &mut std::fmt::Formatter<'_>) -> std::fmt::Result {
+        f.debug_tuple("DF").field(&self.0).finish()
+    }
+}
+impl std::fmt::Display for DF {
+    fn fmt(&self, f: &mut std::fmt::Formatter<'_>) -> std::fmt::Result {
+        write!(f, "display:{}", self.0)
+    }
+}
+#[allow(dead_code)]
+impl DF {
+    pub fn fmt(&self, f: &mut std::fmt::Formatter<'_>) -> std::fmt::Result {
+        f.write_str("decoy:fmt")
+    }
+}
+
+/// a wrapper whose LAST type argument may be unsized
+#[derive(Debug, PartialEq)]
+pub struct Tagged<K, V: ?Sized>(pub K, pub V);
